@@ -77,6 +77,12 @@ Inductive case :=
 (* direct FHDR.UnmarshalBinary / MACPayload.UnmarshalBinary (exported entry points of their own) likewise *)
 | CFhdrDecode (bk : list N) (off len cap : nat) (scr : N) (o1 : outcome fhdr) (bk1 : list N) (o2 : outcome fhdr)
 | CMacDecode (bk : list N) (off len cap : nat) (scr : N) (o1 : outcome macpayload) (bk1 : list N) (o2 : outcome macpayload)
+(* MarshalBinary of a leaf element whose Bytes are bk[off:off+len:off+cap] (which: 0 DataPayload, 1 ProprietaryMACCommandPayload):
+   output; backing buffer afterwards; the element's bytes after the caller overwrote the output (whole capacity) *)
+| CElemMarshal (bk : list N) (off len cap : nat) (which : N) (scr : N) (o : outcome (list N)) (bk1 : list N) (after : list N)
+(* AES128Key / EUI64 / DevAddr / NetID.UnmarshalBinary with receiver bk[roff:roff+len] and input bk[doff:doff+len] of ONE
+   backing array (any overlap): ok?, backing array afterwards *)
+| CIdentOverlap (bk : list N) (roff doff len : nat) (okay : bool) (bk1 : list N)
 (* MACCommand.UnmarshalBinary (proprietary payloads) likewise *)
 | CCmdDecode (bk : list N) (off len cap : nat) (up : bool) (scr : N) (o1 : outcome item) (bk1 : list N) (o2 : outcome item)
 (* exported EncryptFRMPayload(key, uplink, devAddr, fCnt, bk[off:off+len:off+cap]) *)
@@ -142,6 +148,20 @@ Definition check (c : case) : N :=
     code (eqo (omap (view_mac h1) r) o1 && bytes_eqb (buffer h1 0) bk1 &&
           match r with Ok f => eqo (Ok (view_mac (scribble h1 0 scr) f)) o2 | _ => true end)
          (bytes_eqb bk1 bk && match o1 with Ok _ => eqo o1 o2 | _ => true end)
+  | CElemMarshal bk off len cap which scr o bk1 after =>
+    let s := mkSlice 0 off len cap in
+    let '(h1, r) := (if which =? 0 then h_item_marshal g0 (HIData s) else h_macpl_marshal (HPProp s)) [bk] in
+    code (byteseqb (omap (bytes_of h1) r) o && bytes_eqb (buffer h1 0) bk1 &&
+          match r with Ok out => bytes_eqb (bytes_of (scribble h1 (sbuf out) scr) s) after | _ => true end)
+         (bytes_eqb bk1 bk && bytes_eqb after (firstn len (skipn off bk)))
+  | CIdentOverlap bk roff doff len okay bk1 =>
+    let recv := mkSlice 0 roff len len in
+    let data := mkSlice 0 doff len len in
+    let '(h1, r) := h_ident_unmarshal recv data [bk] in
+    code (same_status r okay && bytes_eqb (buffer h1 0) bk1)
+         (negb okay ||
+          (bytes_eqb (firstn len (skipn roff bk1)) (rev (firstn len (skipn doff bk))) &&
+           outside_eqb roff len bk1 bk))
   | CCmdDecode bk off len cap up scr o1 bk1 o2 =>
     let s := mkSlice 0 off len cap in
     let '(h1, r) := h_cmd_unmarshal harness_registry up s [bk] in
